@@ -1,0 +1,41 @@
+//! Verification hook, compiled only with `--cfg happylock_verif`.
+//!
+//! Records every raw lock operation that goes through `Mutex` / `RwLock`
+//! (successful acquisitions after they happened, releases before they happen,
+//! i.e. always while the lock is held) as one ndjson line in
+//! `$HAPPYLOCK_VERIF_TRACE.<pid>`. Without that environment variable it does
+//! nothing. Used by /verif to validate executions of this crate's own test
+//! suite against the TLA+ specification.
+
+use std::io::Write;
+use std::sync::atomic::{AtomicUsize, Ordering::Relaxed};
+use std::sync::{Mutex, OnceLock};
+
+static OUT: OnceLock<Option<Mutex<std::fs::File>>> = OnceLock::new();
+static NEXT_TID: AtomicUsize = AtomicUsize::new(1);
+
+thread_local! {
+	static TID: usize = NEXT_TID.fetch_add(1, Relaxed);
+}
+
+pub(crate) fn rec(event: &str, mode: char, addr: usize, ok: bool) {
+	let out = OUT.get_or_init(|| {
+		std::env::var_os("HAPPYLOCK_VERIF_TRACE").and_then(|p| {
+			let path = format!("{}.{}", p.to_string_lossy(), std::process::id());
+			std::fs::OpenOptions::new()
+				.create(true)
+				.append(true)
+				.open(path)
+				.ok()
+				.map(Mutex::new)
+		})
+	});
+	if let Some(file) = out {
+		let tid = TID.try_with(|t| *t).unwrap_or(0);
+		let mut f = file.lock().unwrap_or_else(|e| e.into_inner());
+		let _ = writeln!(
+			f,
+			"{{\"e\":\"{event}\",\"t\":{tid},\"l\":{addr},\"m\":\"{mode}\",\"ok\":{ok}}}"
+		);
+	}
+}
